@@ -11,10 +11,19 @@ the operation list; then the write is repeated once per (operation index k, mode
     'base'    a non-Exception BaseException raised instead of operation k
     'die-before' / 'die-after'   os._exit() in a forked child at operation k
 
+With Recorder(raw=True) the file object is assembled from io's own C classes over a
+FileIO subclass whose write() is one more operation kind ('rawwrite' = one write(2)
+call), so the buffered layer's flushes are fault points too, with two extra modes:
+
+    'short'         write(2) accepts only the first half of the buffer (returns the
+                    short count), later calls succeed
+    'short-enospc'  the same, and every later write(2) on that file fails with ENOSPC
+
 The interception is global (not a module-level shadow in uberjob.stores._file_store),
 so a store that bypasses staged_write is still observed.
 """
 import builtins
+import errno
 import io
 import os
 
@@ -31,7 +40,8 @@ class InjectedBase(BaseException):
 
 
 class Recorder:
-    def __init__(self, root, fault=None):
+    def __init__(self, root, fault=None, raw=False):
+        self.raw = raw
         self.root = os.path.realpath(root)
         self.ops = []  # (kind, detail)
         self.fault = fault  # (k, mode) with k 0-based index into ops
@@ -65,6 +75,59 @@ class Recorder:
         if mode == "die-after":
             os._exit(77)
         return r
+
+
+class ShortRaw(io.FileIO):
+    """io.FileIO whose write() - one write(2) call - is a recorded fault point."""
+
+    def __init__(self, rec, file, mode, closefd=True, opener=None):
+        super().__init__(file, mode, closefd, opener)
+        self._rec = rec
+        self._full = False
+
+    def write(self, b):
+        rec = self._rec
+        if self._full:
+            raise OSError(errno.ENOSPC, "No space left on device (injected)")
+        mv = memoryview(b).cast("B")
+        k = len(rec.ops)
+        f = rec.fault
+        if f is not None and f[0] == k and not rec.fired and f[1] in ("short", "short-enospc"):
+            rec.ops.append(("rawwrite", len(mv)))
+            if len(mv) < 2:
+                return io.FileIO.write(self, mv)  # nothing to cut: the fault does not fire
+            rec.fired = True
+            self._full = f[1] == "short-enospc"
+            return io.FileIO.write(self, mv[: len(mv) // 2])
+        return rec.step("rawwrite", len(mv), lambda: io.FileIO.write(self, mv))
+
+
+def open_stack(rec, file, mode="r", buffering=-1, encoding=None, errors=None, newline=None, closefd=True, opener=None):
+    """What io.open builds, from io's own classes, over a ShortRaw."""
+    binary = "b" in mode
+    if binary and (encoding is not None or errors is not None or newline is not None):
+        raise ValueError("binary mode doesn't take an encoding/errors/newline argument")
+    raw = ShortRaw(rec, file, mode.replace("b", "").replace("t", ""), closefd, opener)
+    try:
+        line_buffering = False
+        if buffering == 1 and not binary:
+            buffering, line_buffering = -1, True
+        if buffering < 0:
+            buffering = io.DEFAULT_BUFFER_SIZE
+        if buffering == 0:
+            if not binary:
+                raise ValueError("can't have unbuffered text I/O")
+            return raw
+        cls = io.BufferedRandom if "+" in mode else io.BufferedWriter
+        buf = cls(raw, buffering)
+        if binary:
+            return buf
+        text = io.TextIOWrapper(buf, encoding, errors, newline, line_buffering)
+        text.mode = mode
+        return text
+    except BaseException:
+        raw.close()
+        raise
 
 
 class FileProxy:
@@ -140,7 +203,10 @@ class Intercept:
             if isinstance(file, int) or not rec.mine(file) or not any(c in mode for c in "wax+"):
                 return _real_open(file, mode, *a, **k)
             name = os.fspath(file)
-            f = rec.step("open", (os.path.basename(name), mode), lambda: _real_open(file, mode, *a, **k))
+            if rec.raw:
+                f = rec.step("open", (os.path.basename(name), mode), lambda: open_stack(rec, file, mode, *a, **k))
+            else:
+                f = rec.step("open", (os.path.basename(name), mode), lambda: _real_open(file, mode, *a, **k))
             return FileProxy(rec, f, name)
 
         def wrap2(opname):
